@@ -31,6 +31,7 @@ type gvar struct{ name, typ string }
 
 type gspec struct {
 	file, fn, lean, doc string
+	group               string          // "" = lean/core (Core/GenBlocks.lean), "neigh" = lean/neigh (Neigh/Gen.lean)
 	atoms               map[string]gvar // zero-argument calls read as integer inputs
 	atomOrder           []string
 }
@@ -84,6 +85,24 @@ var guardSpecs = []gspec{
 		atoms: map[string]gvar{"len(hostBlocks)": {"hostLength", "Int"}, "len(blocksByTarget)": {"candidatesCount", "Int"},
 			"len(blocks)": {"blocksLength", "Int"}, "len(neighbors)": {"neighborsCount", "Int"}, "len(selectedBlocks)": {"selectedLength", "Int"}},
 		atomOrder: []string{"len(hostBlocks)", "len(blocksByTarget)", "len(blocks)", "len(neighbors)", "len(selectedBlocks)"},
+	},
+	{
+		group: "neigh", file: "validatornode/application/network/neighborhood.go", fn: "Synchronize", lean: "synchronizeGuards",
+		doc:       "`(*Neighborhood).Synchronize`: the integer condition it tests (no known target: fall back to the seeds)",
+		atoms:     map[string]gvar{"len(neighborhood.scoresByTargetValue)": {"knownCount", "Int"}},
+		atomOrder: []string{"len(neighborhood.scoresByTargetValue)"},
+	},
+	{
+		group: "neigh", file: "validatornode/application/network/neighborhood.go", fn: "selectOutbounds", lean: "selectOutboundsGuards",
+		doc: "`(*Neighborhood).selectOutbounds`: the integer condition it tests (the bucket reaches the limit: take a part of it and stop)",
+		atoms: map[string]gvar{"min(targetsCount, neighborhood.maxOutboundsCount)": {"outboundsLimit", "Int"}, "len(outbounds)": {"outboundsLength", "Int"},
+			"len(neighborsByScore[keys[i]])": {"bucketLength", "Int"}},
+		atomOrder: []string{"min(targetsCount, neighborhood.maxOutboundsCount)", "len(outbounds)", "len(neighborsByScore[keys[i]])"},
+	},
+	{
+		group: "neigh", file: "validatornode/application/network/neighborhood.go", fn: "min", lean: "minGuards",
+		doc:   "`min`: the condition it tests",
+		atoms: map[string]gvar{}, atomOrder: []string{},
 	},
 }
 
@@ -369,7 +388,7 @@ func guardDef(repo string, sp *gspec) string {
 		}
 		var fd *ast.FuncDecl
 		for _, d := range f.Decls {
-			if x, ok := d.(*ast.FuncDecl); ok && x.Recv != nil && x.Name.Name == sp.fn {
+			if x, ok := d.(*ast.FuncDecl); ok && x.Name.Name == sp.fn {
 				fd = x
 			}
 		}
